@@ -199,9 +199,13 @@ func Generate(pl *Plugins, s *Schema, v Variant) *Generated {
 	toGen := []string{fileName}
 	if s.Dep != nil {
 		// the imported file: package <pkg>.dep, Go package <import>/dep/v1 with the package NAME depv1
-		depFD := s.Dep.FileDescriptor(DepFileName(fileName), g.ProtoPkg+".dep", g.GoImport+"/dep/v1;depv1")
+		depGo := g.GoImport + "/dep/v1;depv1"
+		if s.SamePkg {
+			depGo = g.GoImport + ";" + name
+		}
+		depFD := s.Dep.FileDescriptor(s.DepName(fileName), g.ProtoPkg+".dep", depGo)
 		g.Deps = append(g.Deps, depFD)
-		toGen = []string{DepFileName(fileName), fileName}
+		toGen = []string{s.DepName(fileName), fileName}
 	}
 	req := &pluginpb.CodeGeneratorRequest{FileToGenerate: toGen, ProtoFile: append(append([]*descriptorpb.FileDescriptorProto{}, g.Deps...), g.FileProto),
 		CompilerVersion: &pluginpb.Version{Major: proto.Int32(3), Minor: proto.Int32(21), Patch: proto.Int32(0)}}
